@@ -241,6 +241,9 @@ SEEDS = [
     "c = 0\nx = 1\nwhile true:\n    c = Bernoulli(1/2)\n    if c == 2:\n        x = 2*x {1/3} 3*x\n    else:\n        x = x + c\n    end\nend\n",
     "k = 0\nc = 0\nx = 1\nwhile true:\n    c = Bernoulli(1/2)\n    if k == 1:\n        x = 2*x {1/3} 3*x\n    else:\n        x = x + c\n    end\nend\n",
     "c = 0\nx = 1\nwhile true:\n    c = Bernoulli(1/2)\n    if c == 0:\n        x = x + 1\n    elif c == 1:\n        x = x + 2\n    else:\n        x = 0 {1/4} 2*x\n    end\nend\n",
+    # elif chains without else whose non-last branches consist of one plain inner if
+    "c = 0\nd = 0\nx = 0\ny = 0\nwhile true:\n    c = Bernoulli(1/2)\n    d = Bernoulli(1/2)\n    if c == 1:\n        if d == 1:\n            x = x + 1\n        end\n    elif d == 0:\n        y = y + 2\n    end\nend\n",
+    "c = 0\nd = 0\nx = 0\ny = 0\nwhile true:\n    c = DiscreteUniform(0, 2)\n    d = Bernoulli(1/2)\n    if c == 0:\n        if d == 1:\n            x = x + 1\n        end\n    elif c == 1:\n        if d == 0:\n            y = y + 1\n        end\n    elif d == 1:\n        y = y + 3\n    end\nend\n",
     # delayed constant chain (acyclic solver, zero-coefficient chains)
     "x = 0\ny = 0\nwhile true:\n    y = x\n    x = 1\nend\n",
     "x = 0\ny = 0\nz = 0\nwhile true:\n    z = y\n    y = x\n    x = x + 1\nend\n",
